@@ -56,6 +56,25 @@ def run(tier, seed):
     impl = run_engine(runner, lines)
     model = run_engine(driver_path(), lines) if lean["build_ok"] else {}
     standard_compare(res, cases, impl, model)
+    # the object-API forms once more on the nightly build: there the precomputed key is additionally held in locked and
+    # read-only locked memory and the heap containers exist (every form must still give the same bytes)
+    ncases = [c for c in cases if c.line.split(" ")[0].startswith(("boxobj_", "sbobj_"))]
+    if tier == "quick":
+        ncases = ncases[::3]
+    extra = [Case(c.line.replace(" vec ", " heap ", 1), cls=c.cls + "/heap", expect=c.expect, meta=c.meta) for c in ncases if " vec " in c.line][::4]
+    ncases = ncases + extra
+    nl = ["n%d %s" % (i, c.line) for i, c in enumerate(ncases)]
+    nimpl = run_engine(build_runner("nightly"), nl)
+    for i, c in enumerate(ncases):
+        a = nimpl.get("n%d" % i, ["missing"])[0]
+        res.evaluations += 1
+        res.count("nightly/" + c.cls)
+        if a == "n/a":
+            continue
+        okp = c.expect(a) if callable(c.expect) else (c.expect is None or a == c.expect or a.startswith(c.expect + " "))
+        if a in ("panic", "missing") or a.startswith(("mismatch", "abort")) or not okp:
+            res.violations.append({"kind": "impl-mismatch" if a.startswith("mismatch") else "predicate", "line": c.line, "answers": {"impl(nightly build)": a[:300]},
+                                   "why": "object-API form on the nightly build (locked precomputed keys, heap containers): " + str(c.meta.get("why", c.cls))})
     if tier == "thorough" and lean["build_ok"]:
         okc, out = leanchecker("C01")
         res.extra["leanchecker"] = "ok" if okc else out
